@@ -358,7 +358,8 @@ fn layer_fields(d: &Doc, layer: Layer) -> &[Field] {
 impl Plan {
     pub fn new(thorough: bool) -> Self {
         let mut docs: Vec<Doc> = vnd::corpus(thorough);
-        docs.extend(vnd::extra(thorough));
+        // (the CRLF twins vnd::extra adds for C12 are layout variants: thorough only)
+        docs.extend(vnd::extra(thorough).into_iter().filter(|d| thorough || !d.name.ends_with("-crlf")));
         if !thorough {
             // layout variants built for the C12/C13 indexed-access checks: same bytes-level structure as documents
             // already in the plan; thorough only (keeps the quick tier within its budget)
